@@ -9,6 +9,7 @@ import (
 	"encoding/binary"
 	"fmt"
 	"os"
+	"runtime/debug"
 
 	"github.com/ipfs/go-datastore"
 	"github.com/ipfs/go-datastore/namespace"
@@ -154,7 +155,7 @@ func servable(ctx context.Context, st *store.Store, b *fullBlock) error {
 func runFullCase(c fullCase, dir string) (outcome string, err error) {
 	defer func() {
 		if r := recover(); r != nil {
-			err = fmt.Errorf("C14/full-prune/panic: %v", r)
+			err = fmt.Errorf("C14/panic/full-prune: Prune of the full-availability pruner (or a read after it) panics: %s", panicMsg(r, debug.Stack()))
 		}
 	}()
 	ctx := context.Background()
@@ -249,6 +250,11 @@ func runFullCase(c fullCase, dir string) (outcome string, err error) {
 
 // runConvertCases: the one-way archival -> pruned switch (full.ConvertFromArchivalToPruned).
 func runConvertCases() (n int, outcomes map[string]int, err error) {
+	defer func() {
+		if r := recover(); r != nil {
+			err = fmt.Errorf("C14/panic/convert: ConvertFromArchivalToPruned panics: %s", panicMsg(r, debug.Stack()))
+		}
+	}()
 	ctx := context.Background()
 	outcomes = map[string]int{}
 	for _, prev := range []string{"archival", "pruned"} {
